@@ -32,6 +32,12 @@ func main() {
 	if dir == "" {
 		dir = "/verif"
 	}
+	if id == "C06" && os.Args[2] == "--child" {
+		os.Exit(checks.C06Child(os.Args[3:]))
+	}
+	if id == "C19" && os.Args[2] == "--child" {
+		os.Exit(checks.C19Child(os.Args[3:]))
+	}
 	if os.Args[2] == "--replay" {
 		if len(os.Args) < 4 {
 			os.Exit(2)
